@@ -74,27 +74,26 @@ def near(rng, key):
     return x.to_bytes(len(key), "big")
 
 
-def gen_trace(mod, rng, ksize):
-    smt = importlib.import_module("trie.smt")
-    exc = importlib.import_module("trie.exceptions")
-    default = rng.choice([b"", b"", val(100, 3)])
-    depth = ksize * 8
-    tree = smt.SparseMerkleTree(key_size=ksize, default=default)
-    initial = tree.root_hash
-    base = rng.getrandbits(depth).to_bytes(ksize, "big") if rng.random() < 0.7 else \
-        rng.choice([b"\x00" * ksize, b"\xff" * ksize, b"\x7f" + b"\xff" * (ksize - 1)])
-    pool = [base]
-    for _ in range(rng.randint(1, 4)):
-        pool.append(near(rng, rng.choice(pool)))
-    pool = sorted(set(pool))
-    dec = Decoder(tree.db, default, depth)
-    proof = None
-    ev = []
+class Runner:
+    """executes calls on a real SparseMerkleTree / SparseMerkleProof and records one event per call"""
 
-    def observe():
-        st = {"root": dec.top(tree.root_hash, depth), "look": [], "isinitial": tree.root_hash == initial,
+    def __init__(self, mod, ksize, default, pool):
+        self.smt = importlib.import_module("trie.smt")
+        self.exc = importlib.import_module("trie.exceptions")
+        self.ksize, self.default, self.pool = ksize, default, pool
+        self.depth = ksize * 8
+        self.tree = self.smt.SparseMerkleTree(key_size=ksize, default=default)
+        self.initial = self.tree.root_hash
+        self.dec = Decoder(self.tree.db, default, self.depth)
+        self.proof = None
+        self.ev = []
+        self.calls = []
+
+    def observe(self):
+        tree, smt, dec, depth = self.tree, self.smt, self.dec, self.depth
+        st = {"root": dec.top(tree.root_hash, depth), "look": [], "isinitial": tree.root_hash == self.initial,
               "pvalue": [0, 0], "pbranch": [], "prootok": True}
-        for k in pool:
+        for k in self.pool:
             try:
                 v = tree.get(k)
                 br = tree.branch(k)
@@ -103,40 +102,29 @@ def gen_trace(mod, rng, ksize):
             except KeyError:
                 st["look"].append({"k": bits_of(k), "g": "KeyError", "v": [0, 0], "br": [],
                                    "calc": not tree.exists(k)})
-        if proof is not None:
-            st["pvalue"] = list(unval(proof.value))
-            st["pbranch"] = dec.seq(proof.branch)
-            st["prootok"] = proof.root_hash == tree.root_hash
+        if self.proof is not None:
+            st["pvalue"] = list(unval(self.proof.value))
+            st["pbranch"] = dec.seq(self.proof.branch)
+            st["prootok"] = self.proof.root_hash == tree.root_hash
         return st
 
-    for _ in range(rng.randint(2, 10)):
-        x = rng.random()
-        k = rng.choice(pool)
-        if proof is None and x < 0.25:
-            try:
-                proof = smt.SparseMerkleProof(k, tree.get(k), tree.branch(k))
-            except KeyError:
-                continue
-            ev.append({"a": "track", "k": bits_of(k), "v": [0, 0], "m": 0, "upd": [], "refused": False,
-                       "proofsame": True, "st": observe()})
-            continue
+    def track(self, k):
         try:
-            if x < 0.75:
-                v = rng.choice([b"", default, val(rng.choice(TAGS), rng.choice([1, 2, 33]))])
-                a = "set"
-                upd = tree.set(k, v)
-            else:
-                v = default
-                a = "delete"
-                upd = tree.delete(k)
+            self.proof = self.smt.SparseMerkleProof(k, self.tree.get(k), self.tree.branch(k))
+        except KeyError:
+            return False
+        self.calls.append(["track", k.hex(), "", 0])
+        self.ev.append({"a": "track", "k": bits_of(k), "v": [0, 0], "m": 0, "upd": [], "refused": False,
+                        "proofsame": True, "st": self.observe()})
+        return True
+
+    def write(self, a, k, v, m):
+        tree, proof, exc = self.tree, self.proof, self.exc
+        self.calls.append([a, k.hex(), v.hex(), m])
+        try:
+            upd = tree.set(k, v) if a == "set" else tree.delete(k)
         except Exception:  # noqa
             upd = ()                                # a raising write: reported through C14.updlist
-        m = rng.choice([depth, rng.randrange(depth + 1), rng.randrange(depth + 1), max(0, depth - 1)])
-        if proof is not None and k != proof.key and rng.random() < 0.5:
-            # around the first differing bit: exactly enough, one short, one more
-            x = int.from_bytes(k, "big") ^ int.from_bytes(proof.key, "big")
-            bp = depth - x.bit_length()
-            m = max(0, min(depth, bp + rng.choice([0, 1, 2])))
         refused, same = False, True
         if proof is not None:
             before = (proof.value, tuple(proof.branch))
@@ -152,14 +140,60 @@ def gen_trace(mod, rng, ksize):
                     proof.update(k, v, tuple(upd))
                 except Exception:  # noqa
                     same = False                    # even the complete list is refused
-        ev.append({"a": a, "k": bits_of(k), "v": list(unval(v)), "m": m, "upd": dec.seq(upd), "refused": refused,
-                   "proofsame": same, "st": observe()})
-    if dec.broken:
-        # the database does not hold a sparse tree over this default (default subtrees are not where
-        # they belong): not expressible as a trace, reported as it is
-        return {"dflt": list(unval(default)), "depth": depth, "ev": [], "broken": True,
-                "calls": [[e["a"], e["k"], e["v"]] for e in ev]}
-    return {"dflt": list(unval(default)), "depth": depth, "ev": ev}
+        self.ev.append({"a": a, "k": bits_of(k), "v": list(unval(v)), "m": m, "upd": self.dec.seq(upd),
+                        "refused": refused, "proofsame": same, "st": self.observe()})
+
+    def trace(self):
+        plan = {"ksize": self.ksize, "default": self.default.hex(), "pool": [k.hex() for k in self.pool],
+                "calls": self.calls}
+        if self.dec.broken:
+            # the database does not hold a sparse tree over this default (default subtrees are not where
+            # they belong): not expressible as a trace, reported as it is
+            return {"dflt": list(unval(self.default)), "depth": self.depth, "ev": [], "broken": True,
+                    "calls": [[e["a"], e["k"], e["v"]] for e in self.ev], "plan": plan}
+        return {"dflt": list(unval(self.default)), "depth": self.depth, "ev": self.ev, "plan": plan}
+
+
+def gen_trace(mod, rng, ksize):
+    default = rng.choice([b"", b"", val(100, 3)])
+    depth = ksize * 8
+    base = rng.getrandbits(depth).to_bytes(ksize, "big") if rng.random() < 0.7 else \
+        rng.choice([b"\x00" * ksize, b"\xff" * ksize, b"\x7f" + b"\xff" * (ksize - 1)])
+    pool = [base]
+    for _ in range(rng.randint(1, 4)):
+        pool.append(near(rng, rng.choice(pool)))
+    pool = sorted(set(pool))
+    r = Runner(mod, ksize, default, pool)
+    for _ in range(rng.randint(2, 10)):
+        x = rng.random()
+        k = rng.choice(pool)
+        if r.proof is None and x < 0.25:
+            r.track(k)
+            continue
+        if x < 0.75:
+            a, v = "set", rng.choice([b"", default, val(rng.choice(TAGS), rng.choice([1, 2, 33]))])
+        else:
+            a, v = "delete", default
+        m = rng.choice([depth, rng.randrange(depth + 1), rng.randrange(depth + 1), max(0, depth - 1)])
+        if r.proof is not None and k != r.proof.key and rng.random() < 0.5:
+            # around the first differing bit: exactly enough, one short, one more
+            xor = int.from_bytes(k, "big") ^ int.from_bytes(r.proof.key, "big")
+            bp = depth - xor.bit_length()
+            m = max(0, min(depth, bp + rng.choice([0, 1, 2])))
+        r.write(a, k, v, m)
+    return r.trace()
+
+
+def rerun_trace(mod, trace):
+    """re-execute the calls of a recorded trace on the current code (./check --replay)"""
+    plan = trace["plan"]
+    r = Runner(mod, plan["ksize"], bytes.fromhex(plan["default"]), [bytes.fromhex(k) for k in plan["pool"]])
+    for a, k, v, m in plan["calls"]:
+        if a == "track":
+            r.track(bytes.fromhex(k))
+        else:
+            r.write(a, bytes.fromhex(k), bytes.fromhex(v), m)
+    return r.trace()
 
 
 def consts(traces):
